@@ -199,6 +199,27 @@ def run(ctx):
             if res[k].tag != "ok" or int.from_bytes(res[k].fields[0], "big") != want:
                 ctx.violation("v-exact(library)", dict(chain_id=c, parity=p), want, str(res[k])[:200])
             k += 1
+    # a typed transaction must state its chain id: absent or null is refused (never defaulted), with or without the flag
+    tl = []
+    for kind in (1, 2):
+        for how in ("absent", "null"):
+            t2 = txgen.rand_tx(rng, kind=kind, chain=5, small=True)
+            doc2 = json.loads(txgen.render(rng, t2, extra_keys=False))
+            if how == "absent":
+                doc2.pop("chainId", None)
+            else:
+                doc2["chainId"] = None
+            p2 = os.path.join(tmp, "typed_%d_%s.json" % (kind, how))
+            open(p2, "w").write(json.dumps(doc2))
+            for extra in ([], ["--allow-missing-relay-protection"], ["--signature-only"]):
+                tl.append(dict(args=["sign", "--mnemonic", PHRASE, "transaction"] + extra + [p2], kind=kind, how=how))
+            tl.append(dict(args=["hash", "transaction", p2], kind=kind, how=how))
+    for rn, r in zip(tl, ctx.cli(tl)):
+        ctx.count("typed-transaction-without-chain-id")
+        ctx.distinct(("typednochain", rn["kind"], rn["how"], tuple(rn["args"][3:-1])))
+        if r.cls != "error" or r.stdout != b"":
+            ctx.violation("typed-chain-id-required", dict(op="hdwallet " + " ".join(a for a in rn["args"] if a != PHRASE), kind=rn["kind"], chain_id=rn["how"]),
+                          "error, nothing printed", str(r)[:300])
     # spellings of the override flag with a value: whatever `=true` means, a value that says NO does not lift the refusal
     t = txgen.rand_tx(rng, kind=0, chain="none", small=True)
     pth = os.path.join(tmp, "nochain.json")
